@@ -53,6 +53,16 @@ def lattice():
                     for w in ulps(sg * v, 1):
                         if -360.0 < w < 360.0:
                             vals.add(w)
+    # a field that reads like another field's limit - 24 or 60 minutes / seconds, 23 or 359 in a lower field - with
+    # the leading fields zero (they are left out of the fancy form)
+    for unit in (1.0, 15.0):
+        for a in (0, 5, 23):
+            for b in (0, 24, 23, 36, 59):
+                for c in (0, 10.0, 24.0, 24.3, 35.99, 59.4):
+                    v = unit * (a + b / 60 + c / 3600)
+                    for sg in (1, -1):
+                        if -360.0 < sg * v < 360.0:
+                            vals.add(sg * v)
     return sorted(vals)
 
 
